@@ -186,6 +186,7 @@ func init() {
 					"compact":         {IndentSize: 2, MaxBlankLines: 1, Compact: true, Rules: formatter.DefaultRules()},
 					"compact-strip":   {IndentSize: 2, MaxBlankLines: 1, Compact: true, StripComments: true, Rules: formatter.DefaultRules()},
 					"indent4-norules": {IndentSize: 4, MaxBlankLines: 2, Rules: map[string]*formatter.IndentRule{}},
+					"strip":           {IndentSize: 2, MaxBlankLines: 1, StripComments: true, Rules: formatter.DefaultRules()},
 				} {
 					o, ferr := formatter.Format([]byte(in.Text), cfg)
 					e := J{"ok": ferr == nil}
